@@ -1,6 +1,9 @@
 package q
 
-import "reflect"
+import (
+	"errors"
+	"reflect"
+)
 
 // ObjectExpr creates an object from keys and values.
 type ObjectExpr struct {
@@ -21,7 +24,14 @@ func (e *ObjectExpr) Evaluate(engine *Engine, input interface{}, args []*Stateme
 				return nil, err
 			}
 
-			results = reflect.Append(results, reflect.ValueOf(result))
+			// The element may itself be a list (a list of lists): its
+			// result is then a list of objects, not an object.
+			object, ok := result.(map[string]interface{})
+			if !ok {
+				return nil, errors.New("cannot build an object from a list of lists")
+			}
+
+			results = reflect.Append(results, reflect.ValueOf(object))
 		}
 
 		return results.Interface(), nil
